@@ -458,20 +458,38 @@ def rule_R2(ctx, M):
     es = [n for n in ast.walk(fn) if isinstance(n, ast.Assign) and
           ast.unparse(n.targets[0]) == esname]
     ctx.anchor(len(es) >= 1, 'exit status assignment in solve()')
-    for n in es:
-        res = {}
-        for msg in (MSG, 'STAGNATED', ''):
+    # (the status may be assigned in several arms of a test on the message:
+    # per message, the assignments whose guards hold are evaluated)
+    res, live_nodes = {}, []
+    for msg in (MSG, 'STAGNATED', ''):
+        vals = []
+        for n in es:
+            env = {f'{var}.exit_message': msg}
+            live = True
+            for t_, pol in au.guards_of(n, fn):
+                if 'exit_message' not in ast.unparse(t_):
+                    continue
+                try:
+                    if bool(FiniteEval(env).ev(t_)) != pol:
+                        live = False
+                except AnalysisError:
+                    pass
+            if not live:
+                continue
+            live_nodes.append(n)
             try:
-                res[msg] = FiniteEval({f'{var}.exit_message': msg}).ev(n.value)
+                vals.append(FiniteEval(env).ev(n.value))
             except AnalysisError as e:
-                res[msg] = f'? {e}'
-        ok = res[MSG] == 0 and res[MSG] is not False and \
-            res['STAGNATED'] == 1 and res[''] == 1
-        ctx.check('C01.R2.exit_status', f'solve `{au.stext(n)}`', ok,
-                  f'exit status is {res}; must be 0 exactly for "CONVERGED" '
-                  'and 1 otherwise', ctx.where(sm, n),
-                  sample={'stmt': au.stext(n), 'table': {k or "''": v for k, v
-                                                          in res.items()}})
+                vals.append(f'? {e}')
+        res[msg] = vals[0] if len(vals) == 1 else vals
+    ok = res[MSG] == 0 and res[MSG] is not False and \
+        res['STAGNATED'] == 1 and res[''] == 1
+    n = es[0]
+    ctx.check('C01.R2.exit_status', f'solve `{au.stext(n)}`', ok,
+              f'exit status is {res}; must be 0 exactly for "CONVERGED" '
+              'and 1 otherwise', ctx.where(sm, n),
+              sample={'stmt': au.stext(n), 'table': {k or "''": v for k, v
+                                                      in res.items()}})
     # -- reference norm: ||source|| (nan only in the zero-source arm) ----------------
     from ..core.template import find as _find, has as _has
     sps = au.params(fn)
@@ -931,13 +949,31 @@ def rule_R6(ctx, M):
                       sample={'arm': name, 'stores': [au.stext(m_)
                                                       for m_, _ in stored]})
         else:
-            if not nonsucc and stored:
-                ctx.note('UNPROVEN: property=C01 krylov arm info < 0 stores '
-                         'its message only if exit_message is empty; a '
-                         '"CONVERGED" left by an inner preconditioner call '
-                         'could survive (no witness found against the real '
-                         'code; scipy returned info < 0 in none of 400 '
-                         'trials)')
+            # a 'CONVERGED' stored by _terminate for the multigrid
+            # preconditioner's own system may be in place when SciPy breaks
+            # down (info < 0, e.g. -10 of bicgstab / cgs for weak sources):
+            # the arm has to replace it (witness F39)
+            over = []
+            for m_ in msgs:
+                gs = au.guards_of(m_, kry)
+                if not gs:
+                    continue
+                try:
+                    fe = FiniteEval({info: v,
+                                     f'{ps[0]}.exit_message': MSG})
+                    if all(bool(fe.ev(t)) == pol for t, pol in gs) and not (
+                            isinstance(m_.value, ast.Constant) and
+                            m_.value.value == MSG):
+                        over.append(m_)
+                except AnalysisError:
+                    continue
+            ctx.check('C01.R6.krylov', 'krylov arm info < 0 replaces a stale '
+                      'CONVERGED', bool(over),
+                      'when the Krylov solver breaks down (info < 0) a '
+                      '"CONVERGED" left by the multigrid preconditioner '
+                      'survives: exit 0 is reported for a field whose '
+                      'residual is above tol', ctx.where(sm, kry),
+                      sample={'arm': name})
             ctx.check('C01.R6.krylov', f'krylov arm {name}', bool(stored),
                       'breakdown of the Krylov solver stores no message',
                       ctx.where(sm, kry), sample={'arm': name})
